@@ -380,6 +380,12 @@ func init() {
 				{{Kind: "revert", Name: "revert2", TxID: 2}}}},
 			scenarioDef{name: "first-writes-on-pristine-ledger", threads: [][]lx.Op{
 				{post("w>a", p("world", "a", "USD", "1"))}, {post("w>b", p("world", "b", "USD", "1"))}}},
+			// opposite transfers deadlock for real (row locks taken in opposite order); the victim is
+			// retried while a third writer appends: the chain must stay linear through the retry
+			scenarioDef{name: "opposite-transfers-deadlock-retry-and-writer", prefix: []lx.Op{seed, post("fund-a", p("world", "a", "USD", "5")), post("fund-b", p("world", "b", "USD", "5"))}, threads: [][]lx.Op{
+				{post("a>b", p("a", "b", "USD", "1"))},
+				{post("b>a", p("b", "a", "USD", "1"))},
+				{post("w>c", p("world", "c", "USD", "1"))}}},
 			scenarioDef{name: "two-ops-each", prefix: []lx.Op{seed}, threads: [][]lx.Op{
 				{post("w>a", p("world", "a", "USD", "1")), {Kind: "txmeta", Name: "txmeta1", TxID: 1, Meta: map[string]string{"k": "v"}}},
 				{post("w>b", p("world", "b", "USD", "1")), {Kind: "accmeta", Name: "accmeta-b", Address: "b", Meta: map[string]string{"k": "v"}}}}},
@@ -402,10 +408,17 @@ func init() {
 					{post("l1:w>a", p("world", "a", "USD", "1"))},
 					{{Kind: "post", Ledger: "l2", Name: "l2:w>a", Postings: []lx.P{p("world", "a", "USD", "1")}}},
 					{{Kind: "accmeta", Ledger: "l2", Name: "l2:accmeta", Address: "q", Meta: map[string]string{"k": "v"}}}}},
+			// two writes per thread: the second write of a thread reuses that thread's database
+			// session after the other thread's session has drawn ids of its own (seeded change C16b
+			// created the id sequences with CACHE 10: each session hands out a private range, so a
+			// later write on the first session gets a SMALLER id than one already committed)
+			scenarioDef{name: "two-writes-each-on-two-sessions", prefix: []lx.Op{seed}, threads: [][]lx.Op{
+				{post("w>a", p("world", "a", "USD", "1")), post("w>a2", p("world", "a", "USD", "2"))},
+				{post("w>b", p("world", "b", "USD", "1")), {Kind: "accmeta", Name: "accmeta-b", Address: "b", Meta: map[string]string{"k": "v"}}}}},
 			scenarioDef{name: "hash-logs-disabled", ledgers: []lx.LedgerSpec{{Name: "l1", Features: map[string]string{"HASH_LOGS": "DISABLED"}}}, prefix: []lx.Op{seed}, threads: [][]lx.Op{
 				{post("w>a", p("world", "a", "USD", "1"))}, {{Kind: "accmeta", Name: "accmeta-q", Address: "q", Meta: map[string]string{"k": "v"}}}}},
 		),
-		rule: "4 scenarios (two creates on disjoint accounts; creates with a failing one in between (rollback => id gap); two ledgers sharing a bucket; HASH_LOGS=DISABLED where no advisory lock orders log insertion); every schedule with <= bound preemptions (thorough: all); oracle: transaction ids and log ids unique per ledger and, along the order in which COMMITs executed, never decreasing per ledger; ids of different ledgers independent; final state == replay of committed writes",
+		rule: "6 scenarios (two creates sharing world; two creates on disjoint accounts; creates with a failing one in between (rollback => id gap); two ledgers sharing a bucket; two writes per thread, i.e. per database session (sequence options such as CACHE are executed by pgsim per session); HASH_LOGS=DISABLED where no advisory lock orders log insertion); every schedule with <= bound preemptions (thorough: all); oracle: transaction ids and log ids unique per ledger and, along the order in which COMMITs executed, never decreasing per ledger; ids of different ledgers independent; final state == replay of committed writes",
 	}, reg.Register)
 
 	registerConc(concCheck{
@@ -428,6 +441,11 @@ func init() {
 			scenarioDef{name: "two-creates-same-long-reference", prefix: []lx.Op{seed}, threads: [][]lx.Op{
 				{{Kind: "post", Name: "w>a ref=long", Postings: []lx.P{p("world", "a", "USD", "1")}, Ref: longRef}},
 				{{Kind: "post", Name: "w>b ref=long", Postings: []lx.P{p("world", "b", "USD", "2")}, Ref: longRef}}}},
+			// opposite transfers sharing a reference: they deadlock for real, the victim is retried
+			// and meets the reference on its second attempt: still a reference conflict, nothing else
+			scenarioDef{name: "opposite-transfers-deadlock-same-reference", prefix: []lx.Op{seed, post("fund-a", p("world", "a", "USD", "5")), post("fund-b", p("world", "b", "USD", "5"))}, threads: [][]lx.Op{
+				{{Kind: "post", Name: "a>b ref=r", Postings: []lx.P{p("a", "b", "USD", "1")}, Ref: "r"}},
+				{{Kind: "post", Name: "b>a ref=r", Postings: []lx.P{p("b", "a", "USD", "1")}, Ref: "r"}}}},
 			scenarioDef{name: "two-references-crossed", prefix: []lx.Op{seed}, threads: [][]lx.Op{
 				{{Kind: "post", Name: "w>a ref=r", Postings: []lx.P{p("world", "a", "USD", "1")}, Ref: "r"}, {Kind: "post", Name: "w>a ref=s", Postings: []lx.P{p("world", "a", "USD", "1")}, Ref: "s"}},
 				{{Kind: "post", Name: "w>b ref=s", Postings: []lx.P{p("world", "b", "USD", "2")}, Ref: "s"}, {Kind: "post", Name: "w>b ref=r", Postings: []lx.P{p("world", "b", "USD", "2")}, Ref: "r"}}}},
@@ -464,6 +482,11 @@ func init() {
 			scenarioDef{name: "same-ik-script-with-request-and-script-metadata", prefix: []lx.Op{seed}, threads: [][]lx.Op{
 				{{Kind: "script", Name: "script-meta ik=k", Script: "vars {\n account $d\n}\nsend [USD 1] (\n source = @world\n destination = $d\n)\nset_tx_meta(\"cat\", \"x\")\nset_account_meta($d, \"k\", \"v\")", Vars: map[string]string{"d": "a"}, Meta: map[string]string{"m": "1"}, AccMeta: map[string]map[string]string{"q": {"p": "1"}}, IK: "k"}},
 				{{Kind: "script", Name: "script-meta ik=k", Script: "vars {\n account $d\n}\nsend [USD 1] (\n source = @world\n destination = $d\n)\nset_tx_meta(\"cat\", \"x\")\nset_account_meta($d, \"k\", \"v\")", Vars: map[string]string{"d": "a"}, Meta: map[string]string{"m": "1"}, AccMeta: map[string]map[string]string{"q": {"p": "1"}}, IK: "k"}}}},
+			// the same key on two opposite transfers (different inputs) that deadlock for real: the
+			// victim's retry must end in a key conflict / input mismatch, never in a second effect
+			scenarioDef{name: "opposite-transfers-deadlock-same-ik", prefix: []lx.Op{seed, post("fund-a", p("world", "a", "USD", "5")), post("fund-b", p("world", "b", "USD", "5"))}, threads: [][]lx.Op{
+				{{Kind: "post", Name: "a>b ik=k", Postings: []lx.P{p("a", "b", "USD", "1")}, IK: "k"}},
+				{{Kind: "post", Name: "b>a ik=k", Postings: []lx.P{p("b", "a", "USD", "1")}, IK: "k"}}}},
 			scenarioDef{name: "sequential-repeat-then-concurrent", prefix: []lx.Op{seed, {Kind: "post", Name: "w>a ik=k", Postings: []lx.P{p("world", "a", "USD", "1")}, IK: "k"}}, threads: [][]lx.Op{
 				{{Kind: "post", Name: "w>a ik=k", Postings: []lx.P{p("world", "a", "USD", "1")}, IK: "k"}},
 				{{Kind: "post", Name: "w>a2 ik=k", Postings: []lx.P{p("world", "a", "USD", "2")}, IK: "k"}}}},
@@ -533,6 +556,12 @@ func c08Conc() ([]*sched.Scenario, error) {
 			{{Kind: "txmeta", Name: "txmeta1", TxID: 1, Meta: map[string]string{"k": "v"}}, {Kind: "post", Name: "dry", Postings: []lx.P{p("world", "e", "USD", "1")}, DryRun: true}}}},
 		scenarioDef{name: "writer-vs-failing-writer", prefix: []lx.Op{seed, fa}, threads: [][]lx.Op{
 			{post("a>c", p("a", "c", "USD", "1"))}, {post("overdraw", p("nobody", "c", "USD", "1"))}, {post("a>d", p("a", "d", "USD", "1"))}}},
+		// opposite transfers deadlock for real; one of them is a dry run: whichever is the victim
+		// is retried, and a retried dry run must still append no log
+		scenarioDef{name: "opposite-transfers-deadlock-one-dry-run", prefix: []lx.Op{seed, fa, fb}, threads: [][]lx.Op{
+			{post("a>b", p("a", "b", "USD", "1"))},
+			{{Kind: "post", Name: "b>a dry", Postings: []lx.P{p("b", "a", "USD", "1")}, DryRun: true}},
+			{post("w>e", p("world", "e", "USD", "1"))}}},
 		scenarioDef{name: "hash-logs-disabled-two-writers", ledgers: []lx.LedgerSpec{{Name: "l1", Features: map[string]string{"HASH_LOGS": "DISABLED"}}}, prefix: []lx.Op{seed, fa, fb}, threads: [][]lx.Op{
 			{post("a>c", p("a", "c", "USD", "1"))}, {post("b>d", p("b", "d", "USD", "1"))}}},
 	)()
